@@ -116,8 +116,8 @@ def check_roundtrip(ctx, val, origin):
                 continue
             do = {"none": None, "same": o, "unrelated": mkname(UNREL)}[mode]
             rd2 = dns.rdata.from_wire(val.rdclass, val.rdtype, buf, len(pre), len(w), do)
-            if t in GR.META_TYPES:
-                expect = rd  # meta RRs ignore the decode origin: their names stay absolute even when they happen to lie under it
+            if t in ("TSIG", "OPT"):
+                expect = rd  # TSIG ignores the decode origin: its names stay absolute even when they happen to lie under it (TKEY honours it)
             elif mode == "same":
                 expect = GR.build(normalized(val, origin, "norm"))
             elif origin is not None:
